@@ -52,7 +52,7 @@ def scripts(draw, flavours=("async-serial", "async-tcp", "sync-serial", "sync-tc
             # the keep-alive probe is addressed to node 0 - it must go out all the same
             case["node0_sleeps"] = True
         return case
-    ev_kinds = ["data", "data", "read_error", "write_error", "abrupt_close", "advance", "advance", "advance_rt", "disconnect", "stop", "swap_callbacks"] + (["peer_eof", "peer_eof"] if tcp else [])
+    ev_kinds = ["data", "data", "read_error", "write_error", "abrupt_close", "advance", "advance", "advance_rt", "disconnect", "stop", "swap_callbacks"] + (["peer_eof", "peer_eof", "arm_write_error"] if tcp else [])
     events = []
     for _ in range(draw(st.integers(1, 10))):
         k = draw(st.sampled_from(ev_kinds))
@@ -139,6 +139,10 @@ def run_script(case):
             elif kind == "peer_eof":
                 world.peer_eof(conn)
                 world.settle()
+            elif kind == "arm_write_error":
+                # the NEXT write on this connection fails, whoever makes it: with nothing else going on that is the
+                # keep-alive probe, written from wherever the library checks the connection
+                world.fail_next_write(conn, OSError("write failed"))
             elif kind == "write_error":
                 world.fail_next_write(conn, OSError("write failed"))
                 world.peer_data(conn, CONFIG_REQ)  # provokes a reply, i.e. a write
